@@ -144,7 +144,7 @@ func verifAuthd(o *Options, replies []verifAuthReply) (queries *int) {
 func verifGrant(tag string) auth.Authorization {
 	// representative grants (case split): everything; publish on t; subscribe on t/c; another
 	// topic; a channel pattern that matches nothing; no permission at all
-	switch verifrt.Choice(tag, 7) {
+	switch verifrt.Choice(tag, 8) {
 	case 0:
 		return auth.Authorization{Topic: ".*", Channels: []string{".*"}, Permissions: []string{"publish", "subscribe"}}
 	case 1:
@@ -155,6 +155,9 @@ func verifGrant(tag string) auth.Authorization {
 		return auth.Authorization{Topic: "^other$", Channels: []string{".*"}, Permissions: []string{"publish", "subscribe"}}
 	case 4:
 		return auth.Authorization{Topic: ".*", Channels: []string{"^nope$"}, Permissions: []string{"publish", "subscribe"}}
+	case 6:
+		// subscribe (to any channel) only: never a publish, however the command is written
+		return auth.Authorization{Topic: "^t$", Channels: []string{".*"}, Permissions: []string{"subscribe"}}
 	case 5:
 		// no channel pattern at all: matches no channel (and no publish, which asks with channel "")
 		return auth.Authorization{Topic: ".*", Channels: []string{}, Permissions: []string{"publish", "subscribe"}}
